@@ -2197,7 +2197,9 @@ func (p *printer) printExpr(expr js_ast.Expr, level js_ast.L, flags printExprFla
 
 		// Print the children
 		for _, childOrNil := range e.NullableChildren {
-			if _, ok := childOrNil.Data.(*js_ast.EJSXElement); ok {
+			if _, ok := childOrNil.Data.(*js_ast.EJSXElement); ok && !p.willPrintExprCommentsAtLoc(childOrNil.Loc) {
+				// (an element child that carries comments keeps its braces: outside of them the
+				// comments would be JSX text)
 				p.printExpr(childOrNil, js_ast.LLowest, 0)
 			} else if text, ok := childOrNil.Data.(*js_ast.EJSXText); ok {
 				p.addSourceMapping(childOrNil.Loc)
